@@ -56,32 +56,43 @@ def edit_insB(s):
         s.files["b.c"] = s.files["b.c"].replace(extra, "")
 
 
+def _cur(s, fname):
+    """c.c may have been renamed to c2.c by an earlier edit of the history"""
+    if fname == "c.c" and fname not in s.files:
+        return "c2.c"
+    return fname
+
+
 def _shift(fname, n):
     def f(s):
-        s.files[fname] = "\n" * n + s.files[fname]
+        fn = _cur(s, fname)
+        s.files[fn] = "\n" * n + s.files[fn]
     return f
 
 
 def _col(fname, marker, n):
     def f(s):
-        s.files[fname] = s.files[fname].replace(marker, " " * n + marker, 1)
+        fn = _cur(s, fname)
+        s.files[fn] = s.files[fn].replace(marker, " " * n + marker, 1)
     return f
 
 
 def edit_cmtC(s):
     c = "/* just a comment */\n"
+    fn = _cur(s, "c.c")
     if s.toggle("cmtC"):
-        s.files["c.c"] = c + s.files["c.c"]
+        s.files[fn] = c + s.files[fn]
     else:
-        s.files["c.c"] = s.files["c.c"].replace(c, "", 1)
+        s.files[fn] = s.files[fn].replace(c, "", 1)
 
 
 def edit_supC(s):
     c = "// cppcheck-suppress uninitvar\n"
+    fn = _cur(s, "c.c")
     if s.toggle("supC"):
-        s.files["c.c"] = s.files["c.c"].replace("int c1(", c + "int c1(", 1)
+        s.files[fn] = s.files[fn].replace("int c1(", c + "int c1(", 1)
     else:
-        s.files["c.c"] = s.files["c.c"].replace(c, "", 1)
+        s.files[fn] = s.files[fn].replace(c, "", 1)
 
 
 def edit_supH(s):
@@ -98,10 +109,11 @@ def edit_hdrTok(s):
 
 def _toggle_source(fname):
     def f(s):
-        if fname in s.sources:
-            s.sources.remove(fname)
+        fn = _cur(s, fname)
+        if fn in s.sources:
+            s.sources.remove(fn)
         else:
-            s.sources.append(fname)
+            s.sources.append(fn)
     return f
 
 
